@@ -19,6 +19,7 @@
 package c43
 
 import (
+	"strconv"
 	"fmt"
 	"math/rand/v2"
 	"os"
@@ -670,6 +671,79 @@ var scenarios = []*scenario{
 		}
 		c.rep.Count("conserved_increments", 60*c.nt)
 	}},
+	{name: "default-container-get", src: `function (nt, opsList, errs)
+		{
+		// reading a missing member of an object whose default value is a container stores a copy of the default:
+		// a read that writes, from all threads at once, partly on the same members
+		ob = Object().Set_default(Object())
+		mk = function (t, n, ob, errs)
+			{
+			return {
+				try
+					for i in ..n
+						{
+						x = ob[i % 40]
+						x.Add(t * 100000 + i)
+						y = ob[t * 1000 + i]
+						y.Add(t)
+						}
+				catch (e)
+					errs.Add(Display(e))
+				}
+			}
+		wg = WaitGroup()
+		for t in ..nt
+			wg.Thread(mk(t, opsList[t].Size(), ob, errs))
+		r = wg.Wait(150)
+		if r isnt true
+			errs.Add("HANG " $ r)
+		n = 0
+		for i in ..40
+			if ob.Member?(i)
+				n += ob[i].Size()
+		return Object(n, ob.Size())
+		}`, check: func(c *caseCtx, res Value) {
+		ob, ok := res.(*SuObject)
+		if !ok || ob.ListSize() != 2 {
+			c.violate("C43/scenario-result", map[string]any{"result": fmt.Sprint(res)})
+			return
+		}
+		c.rep.Count("default_container_members_created", ToInt(ob.ListGet(1)))
+	}},
+	{name: "row-records-of-one-query", src: `function (nt, opsList, errs)
+		{
+		// the records a query delivers share its header; each thread works on its own record
+		recs = C43RowRecords(nt)
+		mk = function (t, n, rec, errs)
+			{
+			return {
+				try
+					for i in ..n
+						{
+						if rec.a isnt t or rec.c isnt "v" $ t
+							errs.Add("FOREIGN field of record " $ t $ ": " $ Display(rec))
+						rec.b = i
+						if rec.b isnt i
+							errs.Add("LOST own update of record " $ t)
+						rec.Members()
+						}
+				catch (e)
+					errs.Add(Display(e))
+				}
+			}
+		wg = WaitGroup()
+		for t in ..nt
+			wg.Thread(mk(t, opsList[t].Size(), recs[t], errs))
+		r = wg.Wait(150)
+		if r isnt true
+			errs.Add("HANG " $ r)
+		return recs.Size()
+		}`, check: func(c *caseCtx, res Value) {
+		if ToInt(res) != c.nt {
+			c.violate("C43/scenario-result", map[string]any{"result": fmt.Sprint(res)})
+		}
+		c.rep.Count("row_records_shared_header", c.nt)
+	}},
 	{name: "copy-on-write", src: `function (nt, opsList, errs)
 		{
 		ob = Object()
@@ -1161,6 +1235,21 @@ func TestVerifC43(t *testing.T) {
 		}
 		Global.TestDef(name, v)
 	}
+	// C43RowRecords(n): n records backed by stored rows that share one header, as the rows of one query do
+	Global.TestDef("C43RowRecords", &SuBuiltin{Fn: func(th *Thread, args []Value) Value {
+		n := ToInt(args[0])
+		fields := []string{"a", "b", "c"}
+		hdr := NewHeader([][]string{fields}, fields)
+		ob := &SuObject{}
+		for t := 0; t < n; t++ {
+			var rb RecordBuilder
+			rb.Add(IntVal(t))
+			rb.Add(IntVal(0))
+			rb.Add(SuStr("v" + strconv.Itoa(t)))
+			ob.Add(SuRecordFromRow(Row{DbRec{Record: rb.Build()}}, hdr, "", nil))
+		}
+		return ob
+	}, BuiltinParams: BuiltinParams{ParamSpec: ParamSpec{Nparams: 1, Flags: []Flag{0}, Names: []string{"n"}, Name: "C43RowRecords"}}})
 	for _, sc := range scenarios {
 		if p, _ := vk.Catch(func() { sc.fn = compile.Constant(sc.src) }); p != nil {
 			panic(fmt.Sprint("harness: cannot compile scenario ", sc.name, ": ", p))
